@@ -39,7 +39,8 @@ EXTENDS Naturals, Integers, Sequences, FiniteSets, TLC, Tags
 CONSTANTS NI,        \* number of loop instances (scatter elements around the loop)
           Counts,    \* admissible iteration counts; Init chooses N \in [1..NI -> Counts]
           Outs,      \* outputs of the loop step; "o1" is fed back to the loop variable
-          Scatter    \* TRUE: instance tags are 0.j (loop inside a scatter); FALSE: the instance tag is 0
+          Scatter,   \* TRUE: instance tags are 0.j (loop inside a scatter); FALSE: the instance tag is 0
+          Eager      \* TRUE: partial-order reduction, see "Reduction" below (FALSE = every interleaving)
 
 ASSUME /\ NI \in Nat \ {0} /\ Counts \subseteq Nat /\ "o1" \in Outs /\ (Scatter \/ NI = 1)
 
@@ -98,20 +99,44 @@ H8(h, x, tk) == [h EXCEPT !.p8[x] = Append(@, tk)]
 H8all(h, tk) == [h EXCEPT !.p8 = [x \in Outs |-> Append(h.p8[x], tk)]]
 H6(h, x, tk, n) == [h EXCEPT !.p6[x] = Append(@, [tok |-> tk, n |-> n])]
 
+\* Reduction ---------------------------------------------------------------------------------------
+\* An action that only consumes from a queue which its step alone reads, changes that step's private
+\* state and appends to a queue with a single producer and a single consumer commutes with every
+\* action of every other step.  With Eager such *local* actions run as soon as they are enabled, in a
+\* fixed priority order, and pre-empt the *visible* actions (those that append to a port with several
+\* producers: p3, p8[x]).  Every behaviour of the full model is equivalent (by swapping independent
+\* actions) to one of the reduced model with the same sequence on every port, so I1, I2 (functions of
+\* the sequences on p8/p6), the first conjunct of I3 (private to one LO step) and deadlock freedom
+\* are preserved.  The second conjunct of I3 relates two steps: it is checked with Eager = FALSE.
+LCReady == ~lc.done /\ q3 # <<>>
+CDLocalReady == ~cddone /\ q4 # <<>>
+                /\ (Head(q4).t = "term" \/ LastC(Head(q4).tag) < N[InstOf(Prefix(Head(q4).tag))])
+LOReady(x) == ~lo[x].done /\ q8[x] # <<>>
+TMWrites(x) == IF Head(q6[x]).t = "term" THEN tm.term \cup {x} = Outs
+               ELSE \A y \in Outs \ {x} : Head(q6[x]).tag \in tm.have[y]
+TMReady(x) == ~tm.done /\ x \notin tm.term /\ q6[x] # <<>>
+TMLocalReady(x) == TMReady(x) /\ ~TMWrites(x)
+EagerPending == Eager /\ (LCReady \/ CDLocalReady \/ (\E x \in Outs : LOReady(x) \/ TMLocalReady(x)))
+Vis == ~EagerPending                                         \* guard of the visible actions
+PrioCD == Eager => ~LCReady
+PrioLO(x) == Eager => ~LCReady /\ ~CDLocalReady /\ (x = "o1" \/ ~LOReady("o1"))
+PrioTM(x) == Eager => IF TMWrites(x) THEN Vis
+                      ELSE ~LCReady /\ ~CDLocalReady /\ ~(\E y \in Outs : LOReady(y))
+
 \* tokens put on p3 after LC stopped reading are never consumed: not kept in the queue
 Q3Put(tk) == IF lc.done THEN q3 ELSE Append(q3, tk)
 
 \* ------------------------------------------------------------------------------------------------
 \* input forwarder: the instance tokens in scatter order, then it terminates
 InFwdPut ==
-  /\ infwd < NI
+  /\ Vis /\ infwd < NI
   /\ infwd' = infwd + 1
   /\ q3' = Q3Put(Tok(ITag(infwd + 1)))
   /\ hist' = H3(hist, Tok(ITag(infwd + 1)), "in")
   /\ UNCHANGED <<N, lc, q4, cddone, pend, bterm, q8, q8b, lo, q6, tm, bpdone, em>>
 
 InFwdTerm ==
-  /\ infwd = NI
+  /\ Vis /\ infwd = NI
   /\ infwd' = NI + 1
   /\ q3' = Q3Put(Term)
   /\ hist' = H3(hist, Term, "in")
@@ -135,7 +160,7 @@ LCReact(s, tk) ==
 LCStops(s) == s.term /\ s.chk = {}
 
 LCStep ==
-  /\ ~lc.done /\ q3 # <<>>
+  /\ LCReady
   /\ LET tk == Head(q3)
          s1 == [LCReact(lc, tk) EXCEPT !.n = @ + 1]
      IN /\ lc' = [s1 EXCEPT !.done = LCStops(s1)]
@@ -150,7 +175,7 @@ LCStep ==
 \* CWLLoopConditionalStep: iteration k of instance i runs iff k < N[i]
 \* true: the token reaches p5 and the body starts one job per output for this iteration
 CDTrue ==
-  /\ ~cddone /\ q4 # <<>> /\ Head(q4).t = "tok"
+  /\ ~cddone /\ q4 # <<>> /\ Head(q4).t = "tok" /\ PrioCD
   /\ LastC(Head(q4).tag) < N[InstOf(Prefix(Head(q4).tag))]
   /\ pend' = [x \in Outs |-> pend[x] \cup {Head(q4).tag}]
   /\ q4' = Tail(q4)
@@ -158,7 +183,7 @@ CDTrue ==
 
 \* _on_false: IterationTerminationToken on every skip port, no await in between
 CDFalse ==
-  /\ ~cddone /\ q4 # <<>> /\ Head(q4).t = "tok"
+  /\ Vis /\ ~cddone /\ q4 # <<>> /\ Head(q4).t = "tok"
   /\ LastC(Head(q4).tag) >= N[InstOf(Prefix(Head(q4).tag))]
   /\ q4' = Tail(q4)
   /\ q8' = [x \in Outs |-> Append(q8[x], ITerm(Head(q4).tag))]
@@ -167,7 +192,7 @@ CDFalse ==
   /\ UNCHANGED <<N, infwd, q3, lc, cddone, pend, bterm, lo, q6, tm, bpdone, em>>
 
 CDTerm ==
-  /\ ~cddone /\ q4 # <<>> /\ Head(q4).t = "term"
+  /\ ~cddone /\ q4 # <<>> /\ Head(q4).t = "term" /\ PrioCD
   /\ q4' = Tail(q4)
   /\ cddone' = TRUE
   /\ UNCHANGED <<N, infwd, q3, lc, pend, bterm, q8, q8b, lo, q6, tm, bpdone, em, hist>>
@@ -175,7 +200,7 @@ CDTerm ==
 \* ------------------------------------------------------------------------------------------------
 \* body + output forwarder: jobs finish in any order; the forwarder terminates after the last one
 BodyOut(x, tag) ==
-  /\ tag \in pend[x]
+  /\ Vis /\ tag \in pend[x]
   /\ pend' = [pend EXCEPT ![x] = @ \ {tag}]
   /\ q8' = [q8 EXCEPT ![x] = Append(@, Tok(tag))]
   /\ q8b' = IF x = "o1" THEN Append(q8b, Tok(tag)) ELSE q8b
@@ -184,7 +209,7 @@ BodyOut(x, tag) ==
 BodyOutAny == \E x \in Outs : \E tag \in pend[x] : BodyOut(x, tag)
 
 BodyTerm(x) ==
-  /\ cddone /\ pend[x] = {} /\ ~bterm[x]
+  /\ Vis /\ cddone /\ pend[x] = {} /\ ~bterm[x]
   /\ bterm' = [bterm EXCEPT ![x] = TRUE]
   /\ q8' = [q8 EXCEPT ![x] = Append(@, Term)]
   /\ q8b' = IF x = "o1" THEN Append(q8b, Term) ELSE q8b
@@ -213,7 +238,7 @@ LOReact(s, tk) ==
 LOEmits(s, tk) == Len(Get(s.tmap, Prefix(tk.tag), <<>>)) = Get(s.smap, Prefix(tk.tag), 0 - 1)
 
 LOStep(x) ==
-  /\ ~lo[x].done /\ q8[x] # <<>>
+  /\ LOReady(x) /\ PrioLO(x)
   /\ LET tk == Head(q8[x])
          s1 == [LOReact(lo[x], tk) EXCEPT !.n = @ + 1]
          brk0 == tk.t = "term" /\ DOMAIN lo[x].tmap = {}          \* "no iterations have been performed"
@@ -231,7 +256,7 @@ LOStep(x) ==
 \* ------------------------------------------------------------------------------------------------
 \* loop terminator: dot product of the loop outputs by tag -> ITERM@instance on LC's input port
 TMStep(x) ==
-  /\ ~tm.done /\ x \notin tm.term /\ q6[x] # <<>>
+  /\ TMReady(x) /\ PrioTM(x)
   /\ LET tk == Head(q6[x])
      IN IF tk.t = "term"
         THEN /\ tm' = [tm EXCEPT !.term = @ \cup {x}, !.done = (tm.term \cup {x} = Outs)]
@@ -247,7 +272,7 @@ TMStep(x) ==
 
 \* back-propagation forwarder (Transformer.run forwards iteration-termination tokens unchanged)
 BPFwd ==
-  /\ ~bpdone /\ q8b # <<>>
+  /\ Vis /\ ~bpdone /\ q8b # <<>>
   /\ q3' = Q3Put(Head(q8b))
   /\ q8b' = Tail(q8b)
   /\ bpdone' = (Head(q8b).t = "term")
